@@ -121,8 +121,14 @@ def op_misc(p):
         opts += [(p.get("at_w", 2), st.tuples(st.just("at"),
                            st.sampled_from(["off", "on", "disable", "enable", "off now", "on again", "off", "on",
                                             "", "offline", "foo", " off", "disabled", "OFF", "lights off", "not on", "turn off now"]),
-                           st.sampled_from(["ExcludeRegion"] * 5 + ["excluderegion", "Other"]),
+                           st.sampled_from(["ExcludeRegion"] * 5 + ["excluderegion", "Other", "Exclude"]),
                            st.booleans() if p["streaming"] else st.just(False)))]
+    if p.get("set_at"):
+        entry = st.fixed_dictionaries({
+            "command": st.sampled_from(["ExcludeRegion", "ExcludeRegion", "Other", "Exclude"]),
+            "parameterPattern": st.sampled_from([None, "^\\s*(enable|on)(\\s|$)", "^\\s*(disable|off)(\\s|$)", "^off", "on$"]),
+            "action": st.sampled_from(["enable_exclusion", "disable_exclusion"])})
+        opts.append((p["set_at"], st.tuples(st.just("set_at"), st.lists(entry, max_size=3))))
     if p["reg_events"]:
         opts.append((1, st.tuples(st.just("reg"), st.sampled_from(["new", "here", "here"]), st.integers(0, 10 ** 6))))
     if p["rebase"] or p.get("rebase_w"):
@@ -439,6 +445,9 @@ class Renderer(object):  # pylint: disable=too-many-instance-attributes
                     self.open = False
                 else:
                     self.enabled = True
+        elif k == "set_at":
+            self.prog.append(["set_at", o[1]])
+            self.atm = AtModel(o[1])
         elif k == "reg":
             self.add_region(o)
         elif k == "rebase":
